@@ -17,9 +17,9 @@ theorem Ext.trans {s t u : St} (h1 : Ext s t) (h2 : Ext t u) : Ext s u := by
     have e1 := x1 h
     rw [x2 (by rw [e1]; exact h), e1]
   · intro i hi
-    have ⟨a1, p1, s1, o1⟩ := I1 i hi
-    have ⟨a2, p2, s2, o2⟩ := I2 i (by omega)
-    refine ⟨a2.trans a1, p2.trans p1, s2.trans s1, fun h => ?_⟩
+    have ⟨a1, p1, s1, o1, l1⟩ := I1 i hi
+    have ⟨a2, p2, s2, o2, l2⟩ := I2 i (by omega)
+    refine ⟨a2.trans a1, p2.trans p1, s2.trans s1, fun h => ?_, l2.trans l1⟩
     have e1 := o1 h
     rw [o2 (by rw [e1]; exact h), e1]
 
@@ -59,20 +59,22 @@ theorem ext_setItemOut (s : St) (i : Nat) (o : Outc) (hn : s.iout i = none) : Ex
   refine ⟨rfl, by simp, by simp, ?_, ?_⟩
   · intro b _; simp
   · intro j _
-    simp only [setItemOut_ibatch, setItemOut_payload, setItemOut_ispawn, setItemOut_iout, true_and]
+    simp only [setItemOut_ibatch, setItemOut_payload, setItemOut_ispawn, setItemOut_ilink, setItemOut_iout, true_and,
+      and_true]
     intro h
     have : ¬ j = i := by intro e; subst e; simp [hn] at h
     simp [this]
 
-theorem ext_pushItem (s : St) (b p : Nat) (sp : Option Nat) : Ext s (s.pushItem b p sp) := by
+theorem ext_pushItem (s : St) (b p : Nat) (sp : Option Nat) (lk : Option Link := none) :
+    Ext s (s.pushItem b p sp lk) := by
   refine ⟨rfl, by simp, by simp, ?_, ?_⟩
   · intro c _; simp
   · intro j hj
     have : ¬ j = s.items.length := by omega
-    simp [pushItem_ibatch, pushItem_payload, pushItem_ispawn, this]
+    simp [pushItem_ibatch, pushItem_payload, pushItem_ispawn, pushItem_ilink, this]
 
 theorem next_setItemOut {s0 b0 a s} (h : Mid s0 b0 a s) (i : Nat) (o : Outc)
-    (hb : s.ibatch i = b0) (hn : s.iout i = none) : Next s0 b0 a s (s.setItemOut i o) := by
+    (hn : s.iout i = none) : Next s0 b0 a s (s.setItemOut i o) := by
   have he := ext_setItemOut s i o hn
   refine ⟨⟨h.ext.trans he, h.act, h.ane, h.alt, h.apend, h.blt, ?_, ?_, ?_, h.runs0, h.pre0⟩, he, rfl, rfl, rfl⟩
   · intro j hj
@@ -81,7 +83,7 @@ theorem next_setItemOut {s0 b0 a s} (h : Mid s0 b0 a s) (i : Nat) (o : Outc)
     simp only [setItemOut_ibatch, setItemOut_bout, setItemOut_bitems, setItemOut_iout, setItemOut_batches]
     refine ⟨x, y, fun h1 h2 => ?_⟩
     by_cases e : j = i
-    · subst e; exact absurd hb h1
+    · subst e; simp [hj]
     · simp [e]; exact z h1 h2
   · intro b hb' j hj
     simpa using h.mem b hb' j hj
@@ -163,7 +165,7 @@ theorem evok_mono {s0 b0 a s s'} (hE : Ext s s') (hb : b0 < s.batches.length) (e
     | some x => simp [hbo x hx]
   | item i o bb =>
     obtain ⟨h1, h2, h3, h4, h5⟩ := h
-    have ⟨i1, i2, _, i4⟩ := hI i h3
+    have ⟨i1, i2, _, i4, _⟩ := hI i h3
     refine ⟨by rw [i4 (by simp [h1])]; exact h1, h2, by omega, by rw [i1]; exact h4, fun hbb => ?_⟩
     rcases h5 hbb with ⟨e, he, hx⟩ | ⟨ho, hku, v, hx⟩ | ⟨hkd, ho⟩
     · exact Or.inl ⟨e, he, hbo _ hx⟩
@@ -175,7 +177,7 @@ theorem pre_iout_none {s0 s : St} (hE : Ext s0 s) (i : Nat) (hn : s.iout i = non
   · cases hx : s0.iout i with
     | none => rfl
     | some x =>
-      have := (hE.2.2.2.2 i hi).2.2.2 (by simp [hx])
+      have := (hE.2.2.2.2 i hi).2.2.2.1 (by simp [hx])
       rw [hn, hx] at this; cases this
   · simp [St.iout, List.getElem?_eq_none_iff.mpr (Nat.le_of_not_lt hi)]
 
@@ -198,13 +200,44 @@ def Rule (s : St) (b0 i : Nat) (o : Outc) : Prop :=
   (o = .err .notSet ∧ s.kind = .user ∧ ∃ v, s.bout b0 = some (.val v)) ∨
   (s.kind = .debug ∧ o = .val (s.payload i))
 
-theorem completeItem_spec {s0 b0 a s} (h : Mid s0 b0 a s) (i : Nat) (o : Outc) (bb : Bool)
-    (hi : i ∈ s.bitems b0) (hn : s.iout i = none) (hr : bb = false → Rule s b0 i o) :
-    Next s0 b0 a s (completeItem s i o bb).1 ∧ (completeItem s i o bb).1.iout i = some o ∧
-    (∀ ev ∈ (completeItem s i o bb).2, EvOK s0 b0 a (completeItem s i o bb).1 ev) ∧
-    (∀ ev ∈ (completeItem s i o bb).2, ev.isAnnounce = false) := by
-  have ⟨hlt, hib⟩ := h.mem b0 h.b0lt i hi
-  have n1 := next_setItemOut h i o hib hn
+theorem linkFires_spec {s : St} {b j : Nat} (h : s.linkFires b j = true) :
+    j < s.items.length ∧ s.ibatch j = b ∧ s.iout j = none := by
+  unfold St.linkFires at h
+  cases e : s.items[j]? with
+  | none => simp [e] at h
+  | some t =>
+    simp only [e, Bool.and_eq_true, beq_iff_eq, Option.isNone_iff_eq_none] at h
+    have ⟨hl, _⟩ := List.getElem?_eq_some_iff.mp e
+    exact ⟨hl, by simp [St.ibatch, e, h.1], by simp [St.iout, e, h.2]⟩
+
+/-- what a (possibly nested) completion of an item of `b0` yields: state, log -/
+def CI (s0 : St) (b0 a : Nat) (s : St) (i : Nat) (o : Outc) (r : St × List Ev) : Prop :=
+  Next s0 b0 a s r.1 ∧ r.1.iout i = some o ∧ (∀ ev ∈ r.2, EvOK s0 b0 a r.1 ev) ∧ (∀ ev ∈ r.2, ev.isAnnounce = false)
+
+/-- the `spawn` callback of an item of `b0` -/
+theorem spawnPart_spec {s0 b0 a s1} (h : Mid s0 b0 a s1) (it : Item) (hb : it.batch = b0) :
+    Next s0 b0 a s1 (spawnPart s1 it).1 ∧ (∀ ev ∈ (spawnPart s1 it).2, EvOK s0 b0 a (spawnPart s1 it).1 ev) ∧
+    (∀ ev ∈ (spawnPart s1 it).2, ev.isAnnounce = false) := by
+  unfold spawnPart
+  cases hsp : it.spawn with
+  | none => exact ⟨Next.refl h, by simp, by simp⟩
+  | some p =>
+    have hnew := newItemOn_mid h p none (some b0)
+    simp only [hb, hnew]
+    have n2 := next_pushItem h p none
+    refine ⟨n2, ?_, ?_⟩
+    · intro ev hev
+      simp at hev; subst hev
+      exact ⟨rfl, rfl, h.ext.2.2.1, by simp, by simp [pushItem_ibatch]⟩
+    · intro ev hev
+      simp at hev; subst hev; rfl
+
+/-- storing the outcome, logging, and the `spawn` callback -/
+theorem ci_base {s0 b0 a s} (h : Mid s0 b0 a s) (i : Nat) (o : Outc) (bb : Bool)
+    (hlt : i < s.items.length) (hib : s.ibatch i = b0) (hn : s.iout i = none) (hr : bb = false → Rule s b0 i o)
+    (it : Item) (hit : it.batch = b0) :
+    CI s0 b0 a s i o ((spawnPart (s.setItemOut i o) it).1, .item i o bb :: (spawnPart (s.setItemOut i o) it).2) := by
+  have n1 := next_setItemOut h i o hn
   have io1 : (s.setItemOut i o).iout i = some o := by simp [setItemOut_iout, hlt]
   have ev1 : EvOK s0 b0 a (s.setItemOut i o) (.item i o bb) := by
     refine ⟨io1, pre_iout_none h.ext i hn, by simpa using hlt, by simpa using hib, fun hbb => ?_⟩
@@ -212,30 +245,84 @@ theorem completeItem_spec {s0 b0 a s} (h : Mid s0 b0 a s) (i : Nat) (o : Outc) (
     · exact Or.inl ⟨e, he, by simpa using hx⟩
     · exact Or.inr (Or.inl ⟨ho, by simpa using hku, v, by simpa using hx⟩)
     · exact Or.inr (Or.inr ⟨by simpa using hkd, by simpa using ho⟩)
-  have e : s.items[i]? = some s.items[i] := List.getElem?_eq_getElem hlt
-  have hbatch : s.items[i].batch = b0 := by simpa [St.ibatch, e] using hib
-  unfold completeItem
-  simp only [e]
-  cases hsp : s.items[i].spawn with
-  | none =>
-    simp only
-    refine ⟨n1, io1, ?_, ?_⟩
-    · intro ev hev; simp at hev; subst hev; exact ev1
-    · intro ev hev; simp at hev; subst hev; rfl
-  | some p =>
-    have hnew := newItemOn_mid n1.mid p none (some b0)
-    simp only [hbatch, hnew]
-    have n2 := next_pushItem n1.mid p none
-    refine ⟨n1.trans n2, by simpa using io1, ?_, ?_⟩
-    · intro ev hev
-      simp at hev
-      rcases hev with hev | hev
-      · subst hev; exact evok_mono n2.ext n1.mid.b0lt _ ev1
-      · subst hev
-        refine ⟨rfl, rfl, ?_, by simp, by simp [pushItem_ibatch]⟩
-        simpa using h.ext.2.2.1
-    · intro ev hev
-      simp at hev
-      rcases hev with hev | hev <;> subst hev <;> rfl
+  have ⟨n2, ev2, na2⟩ := spawnPart_spec n1.mid it hit
+  refine ⟨n1.trans n2, ?_, ?_, ?_⟩
+  · rw [(n2.ext.2.2.2.2 i (by simpa using hlt)).2.2.2.1 (by simp [io1])]; exact io1
+  · intro ev hev
+    simp only [List.mem_cons] at hev
+    rcases hev with hev | hev
+    · subst hev; exact evok_mono n2.ext n1.mid.b0lt _ ev1
+    · exact ev2 ev hev
+  · intro ev hev
+    simp only [List.mem_cons] at hev
+    rcases hev with hev | hev
+    · subst hev; rfl
+    · exact na2 ev hev
+
+/-- a nested completion (the `link` callback) after the base part -/
+theorem ci_nest {s0 b0 a s i o s2 e2 j o' r3} (c2 : CI s0 b0 a s i o (s2, e2)) (hlt : i < s.items.length)
+    (c3 : CI s0 b0 a s2 j o' r3) (ev0 : Ev) (he0 : e2 = ev0 :: e2.tail) :
+    CI s0 b0 a s i o (r3.1, ev0 :: (e2.tail ++ r3.2)) := by
+  obtain ⟨n2, io2, ev2, na2⟩ := c2
+  obtain ⟨n3, _, ev3, na3⟩ := c3
+  have hlt2 : i < s2.items.length := Nat.lt_of_lt_of_le hlt n2.ext.2.2.1
+  have hmem : ∀ ev, ev ∈ ev0 :: (e2.tail ++ r3.2) → ev ∈ e2 ∨ ev ∈ r3.2 := by
+    intro ev hev
+    rw [he0]
+    simp only [List.mem_cons, List.mem_append] at hev ⊢
+    rcases hev with hev | hev | hev
+    · exact Or.inl (Or.inl hev)
+    · exact Or.inl (Or.inr hev)
+    · exact Or.inr hev
+  refine ⟨n2.trans n3, ?_, ?_, ?_⟩
+  · have := (n3.ext.2.2.2.2 i hlt2).2.2.2.1 (by simp [io2] : (St.iout s2 i).isSome)
+    rw [this]; exact io2
+  · intro ev hev
+    rcases hmem ev hev with hev | hev
+    · exact evok_mono n3.ext n2.mid.b0lt ev (ev2 ev hev)
+    · exact ev3 ev hev
+  · intro ev hev
+    rcases hmem ev hev with hev | hev
+    · exact na2 ev hev
+    · exact na3 ev hev
+
+theorem completeItem_core {s0 b0 a} (fuel : Nat) :
+    ∀ (s : St) (i : Nat) (o : Outc) (bb : Bool), Mid s0 b0 a s → i < s.items.length → s.ibatch i = b0 →
+      s.iout i = none → (bb = false → Rule s b0 i o) → CI s0 b0 a s i o (completeItem fuel s i o bb) := by
+  induction fuel with
+  | zero =>
+    intro s i o bb h hlt hib hn hr
+    have e : s.items[i]? = some s.items[i] := List.getElem?_eq_getElem hlt
+    have hbatch : s.items[i].batch = b0 := by simpa [St.ibatch, e] using hib
+    unfold completeItem
+    simp only [e]
+    exact ci_base h i o bb hlt hib hn hr _ hbatch
+  | succ fuel ih =>
+    intro s i o bb h hlt hib hn hr
+    have e : s.items[i]? = some s.items[i] := List.getElem?_eq_getElem hlt
+    have hbatch : s.items[i].batch = b0 := by simpa [St.ibatch, e] using hib
+    have cb := ci_base h i o bb hlt hib hn hr s.items[i] hbatch
+    unfold completeItem
+    simp only [e]
+    cases hl : s.items[i].link with
+    | none => exact cb
+    | some l =>
+      simp only
+      by_cases hf : (spawnPart (s.setItemOut i o) s.items[i]).1.linkFires s.items[i].batch l.target = true
+      · simp only [hf, if_true]
+        rw [hbatch] at hf
+        have ⟨jl, jb, jn⟩ := linkFires_spec hf
+        have c3 := ih _ l.target l.outc true cb.1.mid jl jb jn (fun hf => by cases hf)
+        exact ci_nest cb hlt c3 (.item i o bb) rfl
+      · simp only [hf]
+        exact cb
+
+theorem completeItem_spec {s0 b0 a s} (h : Mid s0 b0 a s) (fuel i : Nat) (o : Outc) (bb : Bool)
+    (hi : i ∈ s.bitems b0) (hn : s.iout i = none) (hr : bb = false → Rule s b0 i o) :
+    Next s0 b0 a s (completeItem fuel s i o bb).1 ∧ (completeItem fuel s i o bb).1.iout i = some o ∧
+    (∀ ev ∈ (completeItem fuel s i o bb).2, EvOK s0 b0 a (completeItem fuel s i o bb).1 ev) ∧
+    (∀ ev ∈ (completeItem fuel s i o bb).2, ev.isAnnounce = false) := by
+  have ⟨hlt, hib⟩ := h.mem b0 h.b0lt i hi
+  exact completeItem_core fuel s i o bb h hlt hib hn hr
 
 end AsynqModel.Batching
